@@ -780,7 +780,7 @@ def check_base(text, st, kind, label):
 def plan(tier, seed):
     n = core.NPROC
     jobs = [{"kind": "A", "tier": tier, "seed": seed, "shard": i, "nshards": 2 * n} for i in range(2 * n)]
-    nb = 2 * n
+    nb = 2 * n if tier == "quick" else 6 * n
     jobs += [{"kind": "B", "tier": tier, "seed": seed, "shard": i, "nshards": nb} for i in range(nb)]
     # permute shard order by seed (structure unchanged)
     k = seed % len(jobs)
@@ -877,7 +877,7 @@ def replay(case):
 
 
 LEVEL_TEXT = (
-    "Every one of ~125 planted fault constructs (all classes of the statement, with line variants) is compiled behind each of 72 layout prefixes, "
+    "Every one of 133 planted fault constructs (all classes of the statement, with line variants) is compiled behind each of 72 layout prefixes, "
     "2-3 tails and through all four construction paths, and at every node boundary of every template program of weight <= 2 over 13 node kinds "
     "(<= 3 over 14 kinds thorough; 23 core faults one weight deeper over 6 resp. 9 kinds); class, filename, source, lineno, pos, RichTraceback, text and html error templates and path agreement are "
     "compared with values computed by the planter. Complete within those bounds; no sampling."
